@@ -42,6 +42,7 @@ type pgpAlt struct {
 	flags   int
 	created uint32
 	life    int64 // -1: no key-expiration pgpw_subpacket
+	pin     bool  // acceptable whatever its date (see Run/PgpCommon.v latest_alts)
 }
 
 type pgpIDRef struct {
@@ -92,7 +93,35 @@ func (b *entBuilder) keyPacket(k *pkey, sub bool, item int) {
 		}
 	}
 	off := b.packet(tag, body)
-	b.regions = append(b.regions, pgpRegion{kind: "key", item: item, isSub: sub, off: off, n: len(k.body())})
+	var hdrs []int
+	for _, h := range keyMPIHeaderOffsets(k.body()) {
+		hdrs = append(hdrs, off+h)
+	}
+	b.regions = append(b.regions, pgpRegion{kind: "key", item: item, isSub: sub, off: off, n: len(k.body()), mpiHdrs: hdrs})
+}
+
+// keyMPIHeaderOffsets: the offsets of the 2-octet MPI bit counts inside a v4 public key body.
+func keyMPIHeaderOffsets(body []byte) (out []int) {
+	if len(body) < 6 {
+		return
+	}
+	pos, n := 6, 0
+	switch body[5] {
+	case 1, 2, 3:
+		n = 2
+	case 17:
+		n = 4
+	case 16:
+		n = 3
+	case 18, 19, 22:
+		pos += 1 + int(body[6])
+		n = 1
+	}
+	for i := 0; i < n && pos+2 <= len(body); i++ {
+		out = append(out, pos)
+		pos += 2 + (int(body[pos])<<8|int(body[pos+1])+7)/8
+	}
+	return
 }
 
 func (b *entBuilder) uid(name string) int {
@@ -141,7 +170,7 @@ func (b *entBuilder) cert(i int, by *pkey, o sigOpts, counts bool) {
 		b.sigRegions(off, lay, len(body), i, false, "")
 	}
 	if counts {
-		b.ids[i].alts = []pgpAlt{altOf(o)} // the code keeps the last valid self-signature; they are written oldest first
+		b.ids[i].alts = append(b.ids[i].alts, altOf(o)) // every valid self-signature; the spec checker takes the most recent one
 	}
 }
 
@@ -177,14 +206,18 @@ func (b *entBuilder) binding(i int, o sigOpts, cross bool, crossUnhashed bool, c
 		}
 	}
 	if counts {
-		b.subs[i].alts = []pgpAlt{altOf(o)}
+		b.subs[i].alts = append(b.subs[i].alts, altOf(o))
 	}
 }
 
 func sxAlts(alts []pgpAlt) Sx {
 	l := SL{}
 	for _, a := range alts {
-		l = append(l, SL{I(a.flags), I(int(a.created)), sInt(a.life)})
+		e := SL{I(a.flags), I(int(a.created)), sInt(a.life)}
+		if a.pin {
+			e = append(e, I(1))
+		}
+		l = append(l, e)
 	}
 	return l
 }
@@ -315,7 +348,8 @@ func subkeyAlgos() []algoChoice {
 		{"ecdsa-p256", func(t uint32, r *Rng) *pkey { return newECKey(oidP256, 19, t, r, nil) }},
 		{"eddsa", func(t uint32, r *Rng) *pkey { return newEdDSAKey(t, r) }},
 		{"dsa-1024", func(t uint32, r *Rng) *pkey { return newDSAKey(0, t, r) }},
-		{"rsa-small", func(t uint32, r *Rng) *pkey { return newRSAKey(1+r.Intn(8), 1, t) }},
+		// 1026..1031 bits: some single-bit changes of the modulus' bit count keep its octet count
+		{"rsa-small", func(t uint32, r *Rng) *pkey { return newRSAKey(2+r.Intn(6), 1, t) }},
 	}
 }
 
@@ -885,8 +919,7 @@ func genC12(c *Ctx) {
 		o1, o2 := selfSigOpts(primary, 8, 1600000000, 0x23, u32p(86400*3650)), selfSigOpts(primary, 8, 1500000000, 0x03, u32p(86400))
 		b.cert(id, nil, o1, true)
 		b.cert(id, nil, o2, true)
-		b.ids[id].alts = []pgpAlt{altOf(o1), altOf(o2)} // either is acceptable
-		pgpInspect(c, "C12", "two-self-signatures-reversed", false, b.stream, b.ref(1), plain)
+		pgpInspect(c, "C12", "two-self-signatures-reversed", false, b.stream, b.ref(1), plain) // the most recent one counts (F42)
 		b = newEnt(primary, false, r, func() int { return 3 })
 		id = b.uid("same user ID")
 		b.cert(id, nil, o2, true)
@@ -1426,7 +1459,7 @@ func genC11(c *Ctx) {
 		}
 		if len(sampled) > 0 {
 			r := NewRng(c.R.U64() + uint64(ki))
-			// always the bit counts of every MPI in signature values, then a seeded sample
+			// always the bit counts of every MPI in key bodies and signature values, then a seeded sample
 			picked := map[int]bool{}
 			var order []int
 			base := 0
@@ -2116,7 +2149,55 @@ func pgpSelfSigs(c *Ctx, prop string) {
 			b.cert(id, nil, o2, true)
 			b.cert(id, nil, o1, true)
 			b.ids[id].alts = []pgpAlt{altOf(o1), altOf(o2)}
+			b.ids[id].alts[0].pin, b.ids[id].alts[1].pin = true, true
 			emit(tag("expired-self-signature"), b, 1)
+		}
+		// 1b. 2, 3 and 4 self-signatures on an identity and binding signatures on a subkey in every order of
+		//     their creation times (all orders for 2 and 3, a seeded sample for 4), also with equal times;
+		//     usage and lifetime differ from signature to signature: the most recent one must be shown
+		for _, times := range [][]uint32{{1, 2}, {1, 1}, {1, 2, 3}, {1, 2, 2}, {1, 1, 2}, {2, 2, 2}, {1, 2, 3, 4}, {1, 3, 3, 4}, {1, 2, 4, 4}} {
+			n := len(times)
+			var perms [][]int
+			switch n {
+			case 2:
+				perms = [][]int{{0, 1}, {1, 0}}
+			case 3:
+				for _, pm := range perms3 {
+					perms = append(perms, pm[:])
+				}
+			default:
+				for k := 0; k < 8; k++ {
+					pm := []int{0, 1, 2, 3}
+					for i := 3; i > 0; i-- {
+						j := r.Intn(i + 1)
+						pm[i], pm[j] = pm[j], pm[i]
+					}
+					perms = append(perms, pm)
+				}
+				perms = append(perms, []int{3, 0, 1, 2}, []int{2, 3, 0, 1}, []int{3, 1, 2, 0})
+			}
+			if pi > 0 && n == 3 {
+				perms = [][]int{{2, 0, 1}, {1, 2, 0}, perms3[pi][:]}
+			}
+			flagsOf := []byte{0x03, 0x23, 0x01, 0x2f}
+			subFlagsOf := []byte{0x0c, 0x04, 0x08, 0x20}
+			lifeOf := []*uint32{u32p(86400), u32p(86400 * 3650), nil, u32p(86400 * 400)}
+			for _, pm := range perms {
+				b := newB()
+				id := b.uid("several self-signatures")
+				for _, k := range pm {
+					b.cert(id, nil, lean(selfSigOpts(p, 8, 1500000000+50000000*times[k], flagsOf[k], lifeOf[k])), true)
+				}
+				sk := cv()
+				b.subs = append(b.subs, pgpSubRef{key: sk})
+				b.keyPacket(sk, true, 0)
+				for _, k := range pm {
+					bo := bindingOpts(p, 8, 1500000000+50000000*times[k], subFlagsOf[k], lifeOf[(k+1)%4])
+					bo.issuerFpr = nil
+					b.binding(0, bo, false, false, nil, true)
+				}
+				emit(tag("signatures-in-every-order-"+strconv.Itoa(n)), b, 1)
+			}
 		}
 		// 2. primary user ID flag (5.2.3.19) on the second of three identities, on all, on none
 		for v := 0; v < 3; v++ {
